@@ -245,6 +245,9 @@ func c15Body(x *Exec, raw json.RawMessage) {
 	if g1 > growths0 {
 		x.Count("grew")
 	}
+	if g1 > growths0+1 {
+		x.Count("grew-twice")
+	}
 	if s1 > shrinks0 {
 		x.Count("shrank")
 	}
